@@ -295,12 +295,11 @@ class CFG:
                     changed = True
         return dom
 
-    def dominates(self, a, b, _cache={}):
-        key = id(self)
-        if key not in _cache:
-            _cache.clear()
-            _cache[key] = self.dominators()
-        return a.id in _cache[key].get(b.id, ())
+    def dominates(self, a, b):
+        dom = self.__dict__.get("_dom_cache")
+        if dom is None:
+            dom = self.__dict__["_dom_cache"] = self.dominators()
+        return a.id in dom.get(b.id, ())
 
     def node_of(self, ast_node):
         """CFG node that evaluates the given expression / statement node."""
